@@ -39,6 +39,10 @@ func (s Sample) Val() float64 {
 		return math.Inf(-1)
 	case "h": // halves: V/2
 		return float64(s.V) / 2
+	case "big": // magnitudes outside the comparison-safe range
+		return float64(s.V) * 1e307
+	case "tiny": // denormals
+		return float64(s.V) * 5e-324
 	}
 	return float64(s.V)
 }
